@@ -74,9 +74,12 @@ class CancelOnShutdownExecutor(CanCustomizeBind, Executor):
         Note that there is no guarantee that the cancel will succeed, and only a single
         attempt is made to cancel any future.
         """
+        # Flip the shutdown flag before taking self._lock: submit() takes the
+        # shutdown gate first and self._lock second, so taking them in the
+        # opposite order here can deadlock against a concurrent submit().
+        if not self._shutdown():
+            return
         with self._lock:
-            if not self._shutdown():
-                return
             metrics.EXEC_INPROGRESS.labels(
                 type="cancel_on_shutdown", executor=self._name
             ).dec()
